@@ -156,3 +156,14 @@ PROPS["C07"] = dict(
                  "bindings are observed as the sequence of pairs (micro) / the map (gomini), not as memory addresses"],
     explanation="invariant proofs over a memory-level model (every write of an operation targets an object allocated by that operation; earlier views unchanged; siblings independent; memoised stream cells; refutations for append-based exts and in-place Set); tie: histories of the real exts/Set/NewVar against the model's views, snapshot oracles on goal programs in micro, gomini and concurrent",
 )
+
+PROPS["C06"] = dict(
+    model="GominiSeq.v (sequential reference), GominiRuns.v (all schedules), ChanKernel.v (channel / WaitGroup protocol)",
+    harness=[dict(name="main", n_quick=80, n_thorough=250, shards_quick=2, shards_thorough=6, timeout=2400, coq_timeout=1500),
+             dict(name="race", race=True, n_quick=0, n_thorough=60, shards_thorough=2, coq=False, timeout=2400)],
+    trusted=_PROG_TRUSTED + _GOMINI_TRUSTED + ["a schedule is a derivation of the inductive relation Runs (one rule per combinator of operators.go / ifthenelse.go): 'for every schedule' is a universal quantifier over derivations; the real Go scheduler, channel implementation and memory model are runtime and are sampled by sweeping GOMAXPROCS, injected yields / sleeps at goal boundaries, placeholder policy and routine limit",
+                                                "goal programs are built on the Go side over *ast.SExpr terms with the real EqualO / ConjO / DisjO / ExistO / IfThenElseO; relation calls are eta-expanded Go closures as the repository's own gomini relations are"],
+    assumptions=["finite searches: the sequential search tree is finite (gseq = Some l); infinite searches are covered by the partial-run soundness theorem and the first-n-answers oracle",
+                 "a relation that recurses without passing through a combinator (no goroutine boundary) overflows the Go stack by construction and is outside the programs generated"],
+    explanation="multiset theorem for every schedule (Runs vs gseq), soundness of every partial run, safety + progress of the channel/WaitGroup kernel of a DisjO node with refutation for Add-in-child; tie: gomini.Run on generated programs under schedule sweeps against gseq evaluated in Coq and a reference search; closed-after-last; first-n answers of infinite searches checked against the formula",
+)
